@@ -200,7 +200,7 @@ def correspondence(ctx, model_ok=True):
         if err:
             failures.append({"what": "a body run inside a fiber called once prints something else: " + err, "program": src, "expected": e,
                              "signature": "body " + name, "failing_input": True})
-    sd = specdiff.diff(ctx, [(n, s, m) for n, s, m, _ in gen], "C09", broken) if model_ok else {"failures": [], "compared": 0}
+    sd = specdiff.diff(ctx, [(n, s, m) for n, s, m, _ in gen] + [("scenario:" + sc[0], sc[1], {}) for sc in SCENARIOS], "C09", broken) if model_ok else {"failures": [], "compared": 0}
     failures += sd["failures"]
     tags = {}
     for _, _, _, tg in gen:
